@@ -294,6 +294,10 @@ func (x *Exec) havocLoop(st *State, fr *Frame, to *ssa.BasicBlock, li *loopInfo)
 			} else {
 				st.ghost[lk] = x.freshConst(st, "lastarg", SInt)
 			}
+			rk := fmt.Sprintf("lastret:%s:%d", name, i)
+			if cur, ok := st.ghost[rk]; ok {
+				st.ghost[rk] = x.freshConst(st, "lastret", cur.sort)
+			}
 		}
 	}
 	x.loopPrecise = map[string][]preciseWrite{}
